@@ -311,6 +311,7 @@ def _cmp(op):
 
 _UFUNCS = {
     "sqrt": lambda x: _elementwise(e_sqrt, x),
+    "cbrt": lambda x: _elementwise(e_cbrt, x),
     "absolute": lambda x: _elementwise(e_abs, x),
     "fabs": lambda x: _elementwise(e_abs, x),
     "maximum": lambda a, b: _elementwise(e_max, a, b),
@@ -969,6 +970,20 @@ def _obj(x):
     if isinstance(x, (list, tuple)):
         return _np.array(x, dtype=object) if has_sym(x) else _np.asarray(x)
     return x
+
+
+def e_cbrt(x):
+    if isinstance(x, Sym):
+        return x.cbrt()
+    if core.ENGINE is None:
+        return float(_np.cbrt(x))
+    return core.ENGINE.cbrt(_term(core.frac(x)))
+
+
+@implements("cbrt")
+def f_cbrt(x, **k):
+    x = _obj(x)
+    return _elementwise(e_cbrt, x) if isinstance(x, _nd) and x.ndim else e_cbrt(x.item() if isinstance(x, _nd) else x)
 
 
 @implements("sqrt")
